@@ -359,7 +359,7 @@ class ProblemsSim:
     distinct_measure = "sessions"
 
     def plan(self, prop, tier):
-        return [("sessions", 24000 if tier == "quick" else 3000000)]
+        return [("sessions", 48000 if tier == "quick" else 3000000)]
 
     def hash_seed_groups(self, prop, tier, seed):
         n = 8 if tier == "quick" else 64
